@@ -20,16 +20,17 @@ func isNanoTime(f *ssa.Function) bool {
 
 // clockBracket checks that in fn the duration handed to the recording calls is c2 − c1 of two monotonic
 // clock reads in fn's own frame that bracket exactly the recovered user call.
-func clockBracket(c *core.Ctx, r *core.Report, fn *ssa.Function, frame ssa.CallInstruction, recorders func(*ssa.Function) bool, allowedBetween func(*ssa.Function) bool) {
+func clockBracket(c *core.Ctx, r *core.Report, fn *ssa.Function, body an.Event, recorders func(*ssa.Function) bool, allowedBetween func(*ssa.Function) bool) {
 	key := core.FuncName(fn)
-	var durs []ssa.Value
+	var durs []an.FV
 	var recCalls []ssa.Instruction
 	for _, e := range recordEvents(fn) {
 		if !recorders(an.Callee(e.Ev.Call())) {
 			continue
 		}
+		args := e.Ev.Call().Common().Args
 		recCalls = append(recCalls, e.Ev.Instr)
-		durs = append(durs, e.Dur)
+		durs = append(durs, an.EventFV(e.Ev, args[len(args)-1]).Resolve(isNanoTime))
 	}
 	if len(durs) == 0 {
 		r.Undecided(key+"#recorders", c.Pos(fn.Pos()), "no recording call found")
@@ -44,58 +45,75 @@ func clockBracket(c *core.Ctx, r *core.Report, fn *ssa.Function, frame ssa.CallI
 		return ok1 && ok2 && ua.Op == token.MUL && ub.Op == token.MUL && ua.X == ub.X
 	}
 	for i, d := range durs {
-		if !sameVal(d, durs[0]) {
-			r.Violation(key+"#same-duration", an.Pos(c, recCalls[i]), "the statistics and the metric are given different durations (%s vs %s)", an.D().Of(d), an.D().Of(durs[0]))
+		if !sameVal(d.V, durs[0].V) {
+			r.Violation(key+"#same-duration", an.Pos(c, recCalls[i]), "the statistics and the metric are given different durations (%s vs %s)", an.D().Of(d.V), an.D().Of(durs[0].V))
 			return
 		}
 	}
-	sub, ok := durs[0].(*ssa.BinOp)
+	sub, ok := durs[0].V.(*ssa.BinOp)
 	if !ok || sub.Op != token.SUB {
-		r.Violation(key+"#duration-shape", an.Pos(c, recCalls[0]), "the recorded duration is %s, not the difference of two clock reads taken in this frame: a body that panics (FailNow, failed assertion, crash) or an early exit leaves it unset or stale", an.D().Of(durs[0]))
+		r.Violation(key+"#duration-shape", an.Pos(c, recCalls[0]), "the recorded duration is %s, not the difference of two clock reads taken in this frame: a body that panics (FailNow, failed assertion, crash) or an early exit leaves it unset or stale", an.D().Of(durs[0].V))
 		return
 	}
-	c2, ok2 := sub.X.(*ssa.Call)
-	c1, ok1 := sub.Y.(*ssa.Call)
+	x := an.FV{V: sub.X, F: durs[0].F}.Resolve(isNanoTime)
+	y := an.FV{V: sub.Y, F: durs[0].F}.Resolve(isNanoTime)
+	c2, ok2 := x.V.(*ssa.Call)
+	c1, ok1 := y.V.(*ssa.Call)
 	if !ok1 || !ok2 || !isNanoTime(an.Callee(c1)) || !isNanoTime(an.Callee(c2)) {
 		r.Violation(key+"#duration-shape", an.Pos(c, sub), "the recorded duration is %s, not NanoTime() − NanoTime()", an.D().Of(sub))
 		return
 	}
-	r.Check(an.Dominates(c1, frame), key+"#start-before-body", an.Pos(c, c1), "the first clock read precedes the body", "the start time is read after the body started")
-	r.Check(an.Dominates(frame, c2), key+"#end-after-body", an.Pos(c, c2), "the second clock read follows the recovered body on every path (also when it panicked)", "the end time is read before the body finished")
-	if an.InLoop(c1) || an.InLoop(c2) {
+	c1Ev, c2Ev := an.Event{Instr: c1, Frame: y.F}, an.Event{Instr: c2, Frame: x.F}
+	r.Check(an.Before(c1Ev, body), key+"#start-before-body", an.Pos(c, c1), "the first clock read precedes the body", "the start time is read after the body started")
+	r.Check(an.Before(body, c2Ev), key+"#end-after-body", an.Pos(c, c2), "the second clock read follows the recovered body on every path (also when it panicked)", "the end time is read before the body finished")
+	inLoop := func(e an.Event) bool {
+		in := e.Instr
+		for fr := e.Frame; fr != nil; fr = fr.Parent {
+			if an.InLoop(in) {
+				return true
+			}
+			if fr.Parent != nil {
+				in = fr.Site
+			}
+		}
+		return false
+	}
+	if inLoop(c1Ev) || inLoop(c2Ev) {
 		r.Violation(key+"#clock-loop", an.Pos(c, c1), "clock reads sit in a loop")
 	}
-	// what runs between the two reads
+	// what runs between the two reads, apart from the recovered frame of the body itself
+	bodyRoot := body.Root()
 	clean := true
-	an.Instrs(fn, func(in ssa.Instruction) {
-		call, ok := in.(ssa.CallInstruction)
-		if !ok || in == ssa.Instruction(c1) || in == ssa.Instruction(c2) || in == ssa.Instruction(frame) {
+	an.Flatten(fn, flatDepth, nil, func(e an.Event) {
+		call := e.Call()
+		if call == nil || e.Instr == ssa.Instruction(c1) || e.Instr == ssa.Instruction(c2) || e.Root() == bodyRoot {
 			return
 		}
-		if _, isDefer := in.(*ssa.Defer); isDefer {
+		if _, isDefer := e.Instr.(*ssa.Defer); isDefer {
 			return
 		}
-		if an.Dominates(c1, in) && an.Dominates(in, c2) {
+		if an.Before(c1Ev, e) && an.Before(e, c2Ev) {
 			t := an.Callee(call)
-			if t != nil && allowedBetween(t) {
-				return
+			if t != nil && (allowedBetween(t) || (an.Inlinable(fn)(call, t) && e.Frame.Fn != nil)) {
+				return // helpers are looked into: their own calls are judged
 			}
 			clean = false
-			r.Violation(key+"#between-clocks", an.Pos(c, in), "%s executes between the two clock reads: its time is charged to the iteration's duration", an.D().Of(call.Common().Value))
+			r.Violation(key+"#between-clocks", an.Pos(c, e.Instr), "%s executes between the two clock reads: its time is charged to the iteration's duration", an.D().Of(call.Common().Value))
 		}
 	})
 	if clean {
 		r.OK(key+"#between-clocks", an.Pos(c, c2), "only the recovered body (and the outcome read) run between the clock reads")
 	}
 	// cleanups after the second read
-	for _, call := range an.AllCalls(fn) {
-		if an.Callee(call) != nil || call.Common().IsInvoke() {
-			continue
+	for _, e := range an.FlatCalls(fn, flatDepth, func(call ssa.CallInstruction, t *ssa.Function) bool {
+		if t != nil || call.Common().IsInvoke() {
+			return false
 		}
-		if fld, owner := an.TerminalField(call.Common().Value); fld != nil && an.IsNamed(owner, workersPkg, "iterationState") {
-			_, isDefer := call.(*ssa.Defer)
-			r.Check(isDefer || an.Dominates(c2, call), key+"#cleanups-excluded", an.Pos(c, call), "cleanups run after the second clock read", "the iteration's cleanups run before the end time is read: their time is included in the duration")
-		}
+		fld, owner := an.TerminalField(call.Common().Value)
+		return fld != nil && an.IsNamed(owner, workersPkg, "iterationState")
+	}) {
+		_, isDefer := e.Instr.(*ssa.Defer)
+		r.Check(isDefer || an.Before(c2Ev, e), key+"#cleanups-excluded", an.Pos(c, e.Instr), "cleanups run after the second clock read", "the iteration's cleanups run before the end time is read: their time is included in the duration")
 	}
 }
 
@@ -107,16 +125,18 @@ func c17(c *core.Ctx, r *core.Report) {
 	ppkg := "internal/progress"
 
 	rule(r, "C17.R1", "recorded durations are NanoTime₂ − NanoTime₁ with the two reads bracketing exactly the recovered body, in the runner's own frame; cleanups and queueing are outside", func() {
-		runner, _, frame := iterationRunner(c)
-		clockBracket(c, r, runner, frame,
+		runner, bodyEv, _ := userRunner(c, "RunFn", func(t *ssa.Function) bool { return isStatsRecord(t) || isMetricsIter(t) })
+		clockBracket(c, r, runner, bodyEv,
 			func(t *ssa.Function) bool { return isStatsRecord(t) || isMetricsIter(t) },
 			func(t *ssa.Function) bool {
 				return isMethod(t, testingPkg, "T", "Failed") || an.IsFunc(t, metricsPkg, "Result")
 			})
-		setup, _, sframe := setupRunner(c)
-		clockBracket(c, r, setup, sframe,
+		setup, sbodyEv, _ := userRunner(c, "ScenarioFn", func(t *ssa.Function) bool { return isMethod(t, metricsPkg, "Metrics", "RecordSetupResult") })
+		clockBracket(c, r, setup, sbodyEv,
 			func(t *ssa.Function) bool { return isMethod(t, metricsPkg, "Metrics", "RecordSetupResult") },
-			func(t *ssa.Function) bool { return isMethod(t, testingPkg, "T", "Failed") })
+			func(t *ssa.Function) bool {
+				return isMethod(t, testingPkg, "T", "Failed") || an.IsFunc(t, metricsPkg, "Result")
+			})
 		// the value flows unchanged to the accumulators
 		rec := c.MustFn(ppkg, "Stats.Record")
 		for _, call := range an.AllCalls(rec) {
